@@ -30,7 +30,7 @@ WIDE = os.environ.get('SEED_WIDE')          # second pass for seeds the first pa
 
 
 SECOND = [          # second pass (seeds the first pass missed): the remaining checks that read the touched file
-    (r'solvers/', ['C19', 'C03', 'C17', 'C20', 'C02', 'C16', 'C13', 'C05', 'C18']),
+    (r'solvers/', ['C19', 'C10', 'C03', 'C17', 'C20', 'C02', 'C16', 'C13', 'C18']),
     (r'penalties/|utils/prox_funcs', ['C04', 'C02', 'C14', 'C15', 'C16', 'C19', 'C20']),
     (r'datafits/|utils/sparse_ops', ['C10', 'C19', 'C14', 'C15', 'C20', 'C02', 'C06']),
     (r'estimators|experimental/', ['C11', 'C12', 'C14', 'C16', 'C13', 'C02']),
